@@ -135,38 +135,69 @@ Section Hom.
   Notation rho := (rho_of n st).
   Notation phi := (phi_of st).
 
-  (** Point.eval of a derived point whose zero vector has the right length *)
-  Lemma point_sum_hom : forall d acc v, length acc = n -> point_sum st acc d = Ok v ->
-    length v = n /\ forall i, vecR v i = vecR acc i + (evalP rho d : nat -> R) i.
+  (** Point.eval of a derived point *)
+  Lemma point_sum_hom : forall d acc r,
+    (forall a, acc = Some a -> length a = n) -> point_sum st acc d = Ok r ->
+    match r with
+    | Some v => length v = n /\
+                forall i, vecR v i = (match acc with Some a => vecR a i | None => 0 end)
+                                     + (evalP rho d : nat -> R) i
+    | None => acc = None /\ d = []
+    end.
   Proof.
-    induction d as [|[k w] d IH]; intros acc v Hacc H; cbn [point_sum] in H.
-    - injection H as <-. split; [exact Hacc|]. intro i. cbn [evalP]. rewrite Rn_vzero. lra.
+    induction d as [|[k w] d IH]; intros acc r Hacc H; cbn [point_sum] in H.
+    - injection H as <-. destruct acc as [a|]; [|auto]. split; [apply Hacc; reflexivity|].
+      intro i. cbn [evalP]. rewrite Rn_vzero. lra.
     - destruct (leafP st k) as [u|] eqn:Hk; [|discriminate].
       apply leafP_Ok in Hk as [Hn Hl]. pose proof (Hsol _ _ Hn) as Hlen.
-      unfold np_iadd in H. rewrite length_vscale, Hlen, Hacc, Nat.eqb_refl in H.
-      apply IH in H; [|rewrite length_zipadd; rewrite ?length_vscale; lia].
-      destruct H as [H1 H2]. split; [exact H1|]. intro i.
-      rewrite H2, vecR_zipadd, vecR_vscale by (rewrite length_vscale; lia).
-      cbn [evalP]. rewrite Rn_vadd, Rn_vscal, rho_of_eq, Hl. lra.
+      destruct acc as [a|].
+      + pose proof (Hacc a eq_refl) as Ha. unfold np_add in H.
+        rewrite length_vscale, Hlen, Ha, Nat.eqb_refl in H.
+        apply IH in H; [|intros a' [= <-]; rewrite length_zipadd; rewrite ?length_vscale; lia].
+        destruct r as [v|]; [|destruct H; discriminate]. destruct H as [H1 H2]. split; [exact H1|]. intro i.
+        rewrite H2, vecR_zipadd, vecR_vscale by (rewrite length_vscale; lia).
+        cbn [evalP]. rewrite Rn_vadd, Rn_vscal, rho_of_eq, Hl. lra.
+      + apply IH in H; [|intros a' [= <-]; rewrite length_vscale; exact Hlen].
+        destruct r as [v|]; [|destruct H; discriminate]. destruct H as [H1 H2]. split; [exact H1|]. intro i.
+        rewrite H2, vecR_vscale. cbn [evalP]. rewrite Rn_vadd, Rn_vscal, rho_of_eq, Hl. lra.
   Qed.
 
-  Lemma point_compute_hom d v : point_compute n st d = Ok v ->
-    length v = n /\ forall i, vecR v i = (evalP rho d : nat -> R) i.
+  (** the value is the combination, coordinate by coordinate, whatever [m]; it has [n] coordinates
+      unless the combination is empty, whose null vector has [m] coordinates *)
+  Lemma point_compute_hom m d v : point_compute m st d = Ok v ->
+    (forall i, vecR v i = (evalP rho d : nat -> R) i)
+    /\ (d <> [] -> length v = n) /\ (d = [] -> length v = m).
   Proof.
-    unfold point_compute. intro H. apply point_sum_hom in H; [|apply repeat_length].
-    destruct H as [H1 H2]. split; [exact H1|]. intro i. rewrite H2, vecR_repeat0. lra.
+    unfold point_compute. destruct d as [|kw d].
+    - cbn [point_sum]. intros [= <-]. split; [intro i; rewrite vecR_repeat0; cbn [evalP]; rewrite Rn_vzero; reflexivity|].
+      split; [intro H; congruence|intros _; apply repeat_length].
+    - destruct (point_sum st None (kw :: d)) as [r|] eqn:H; [|discriminate].
+      apply point_sum_hom in H; [|intros a [=]]. destruct r as [u|].
+      + intros [= <-]. destruct H as [H1 H2]. split; [intro i; rewrite H2; lra|].
+        split; [intros _; exact H1|discriminate].
+      + destruct H as [_ H]. discriminate.
   Qed.
 
-  Lemma point_sum_total : forall d acc, length acc = n ->
-    (forall k, In k (keys d) -> exists v, leafP st k = Ok v) -> exists v, point_sum st acc d = Ok v.
+  Lemma point_sum_total : forall d acc, (forall a, acc = Some a -> length a = n) ->
+    (forall k, In k (keys d) -> exists v, leafP st k = Ok v) -> exists r, point_sum st acc d = Ok r.
   Proof.
     induction d as [|[k w] d IH]; intros acc Hacc Hk; cbn [point_sum].
     - eauto.
     - destruct (Hk k) as [u Hu]; [left; reflexivity|]. rewrite Hu.
       apply leafP_Ok in Hu as [Hn _]. pose proof (Hsol _ _ Hn) as Hlen.
-      unfold np_iadd. rewrite length_vscale, Hlen, Hacc, Nat.eqb_refl.
-      apply IH; [rewrite length_zipadd; rewrite ?length_vscale; lia|].
-      intros k' Hin. apply Hk. right. exact Hin.
+      assert (Hk' : forall k', In k' (keys d) -> exists v, leafP st k' = Ok v)
+        by (intros k' Hin; apply Hk; right; exact Hin).
+      destruct acc as [a|].
+      + unfold np_add. rewrite length_vscale, Hlen, (Hacc a eq_refl), Nat.eqb_refl.
+        apply IH; [|exact Hk']. intros a' [= <-]. rewrite length_zipadd; rewrite ?length_vscale, ?(Hacc a eq_refl); lia.
+      + apply IH; [|exact Hk']. intros a' [= <-]. rewrite length_vscale. exact Hlen.
+  Qed.
+
+  Lemma point_compute_total m d :
+    (forall k, In k (keys d) -> exists v, leafP st k = Ok v) -> exists v, point_compute m st d = Ok v.
+  Proof.
+    intro Hk. unfold point_compute. destruct (point_sum_total d None) as [r ->]; [intros a [=]|exact Hk|].
+    destruct r; eauto.
   Qed.
 
   Lemma key_val_hom k x : key_val st k = Ok x -> Q2R x = evalK rho phi k.
